@@ -175,6 +175,7 @@ func vMaxDepth() int       { return 0 }
 func vFmtPanics() int      { return 0 }
 func vPoolMayDrop(on bool) {}
 func vYield()              { runtime.Gosched() }
+func vJitter()             { time.Sleep(time.Duration(time.Now().UnixNano()%7) * 150 * time.Microsecond) }
 func vQuiesce()            { zzQuiesce() }
 func vAdvance() bool       { return zzAdvance() }
 func vNow() int64          { return zzNow() }
